@@ -143,4 +143,43 @@ theorem exec_sound (a b c : Bool) (P : RProg) : ∀ (sched : List Fault) (st : R
         · simp only [exec, hb, hf, hh]
           exact (ha1.trans ha2).trans ha3
 
+/-- every entry is `ok` -/
+def allOk (s : List Fault) : Bool := s.all (· == .ok)
+
+theorem Agree.allOk {p s r : List Fault} (h : Agree p s r) (hs : allOk s = true) : allOk p = true := by
+  induction h with
+  | nil s => rfl
+  | cons s p r _ ih =>
+    cases s with
+    | nil => simpa [Solver.allOk] using ih (by rfl)
+    | cons x xs =>
+      simp only [Solver.allOk, List.all_cons, Bool.and_eq_true] at hs ⊢
+      exact ⟨by simpa using hs.1, by simpa [Solver.allOk] using ih (by simpa [Solver.allOk] using hs.2)⟩
+
+/-! ### finite checks over all paths, for the eight control-relevant solver behaviours -/
+
+def bools : List Bool := [false, true]
+
+/-- `q rmIn rmOut hasFile path` holds for every path of `P` -/
+def forAllPaths (P : RProg) (q : Bool → Bool → Bool → Path → Bool) : Bool :=
+  bools.all fun a => bools.all fun b => bools.all fun c => (execAll a b c P RState.init).all (q a b c)
+
+theorem forAllPaths_spec {P : RProg} {q : Bool → Bool → Bool → Path → Bool}
+    (h : forAllPaths P q = true) (a b c : Bool) (p : Path)
+    (hp : p ∈ execAll a b c P RState.init) : q a b c p = true := by
+  have hb : ∀ x : Bool, x ∈ bools := by intro x; cases x <;> simp [bools]
+  simp only [forAllPaths, List.all_eq_true] at h
+  exact h a (hb a) b (hb b) c (hb c) p hp
+
+/-- **every run, under every schedule and solver behaviour, satisfies what all paths satisfy** -/
+theorem run_satisfies {P : RProg} {q : Bool → Bool → Bool → Path → Bool}
+    (h : forAllPaths P q = true) (a b c : Bool) (sched : List Fault) :
+    ∃ path, Agree path sched (exec a b c P sched RState.init).1 ∧
+      q a b c (path, (exec a b c P sched RState.init).2) = true := by
+  obtain ⟨path, hm, ha⟩ := exec_sound a b c P sched RState.init
+  exact ⟨path, ha, forAllPaths_spec h a b c _ hm⟩
+
+/-- files created by the call that still exist -/
+def Path.left (p : Path) : List Nat := p.2.1.created.filter p.2.1.files.contains
+
 end Cnfgen.Solver
